@@ -47,8 +47,15 @@ def oracle(policy, actions, recs, snap):
                     key = 'c09:member-alive-at-join-exit'
                 bad.append((key, f'join exit ({o}) at step {idx} ({a}) with members {alive} '
                                  f'still running'))
-    if snap.get('add_after_join') == 'accepted':
-        bad.append(('c09:add-after-join', 'a task was accepted by a group whose join completed'))
+    if str(snap.get('add_after_join', '')).startswith('accepted'):
+        bad.append(('c09:add-after-join', 'a task was accepted by a group whose join completed: '
+                    + snap['add_after_join']))
+    joined_at = next((i for i, r in enumerate(recs) if r['joined']), None)
+    if joined_at is not None:
+        for idx in range(joined_at + 1, len(actions)):
+            a = actions[idx]
+            if a[0] == 'S' and f'sr{a[1]}' not in recs[idx]['obs']:
+                bad.append(('c09:add-after-join', f'step {idx} {a}: spawn accepted after join completed'))
     return bad
 
 
@@ -106,7 +113,7 @@ def parse_actions(text):
         elif k == 'J':
             acts.append(('J',))
         elif k == 'E':
-            acts.append(('E', f[1] == '1'))
+            acts.append(('E', {'0': False, '1': True, 'c': 'c'}[f[1]]))
         elif k == 'K':
             acts.append(('K',))
         elif k == 'N':
